@@ -68,10 +68,31 @@ def setter_masks(fn):
             if v is not None:
                 mask = (~v) & 0xff if st['rv']['op'] == 'BitAnd' else v
             out.setdefault(idx, []).append((st['rv']['op'], mask))
+            if st['rv']['op'] == 'BitOr' and not isinstance(mask, int):
+                UNMASKED.setdefault(fn.gpath, []).append((idx, mask, other))
     return out
 
 
+UNMASKED = {}
+
+
+def or_operand_confined(fn, idx, mask, other, allowed):
+    """A non-constant value OR-ed into a header octet stays inside the field's bits: it is masked with a constant subset
+    of the field, shifted from a 4-bit newtype (opcode), or is the value of a 4-bit newtype (Rcode / Opcode, whose
+    constructors only admit values < 16) -- never a wider integer."""
+    if isinstance(mask, tuple) and mask[0] == 'and':
+        return (mask[1] & ~allowed) == 0, 'masked with 0x%02x' % mask[1]
+    sl = slice_of(fn, other)
+    ptys = sorted({fn.local_ty(p) for p in sl.params()})
+    narrow = all(t in ('message::rcode::Rcode', 'message::opcode::Opcode', 'bool') or t.startswith('&mut message::writer::Writer') or t.startswith('&message::writer::Writer') for t in ptys)
+    has_and = any(c for c in sl.consts() if re.match(r'^(15|120|1|2|4|128)_u8$', c))
+    if isinstance(mask, tuple) and mask[0] == 'shl':
+        return narrow, 'shifted value of %s' % ptys
+    return narrow and bool(ptys), 'value derives from %s' % ptys
+
+
 def check(R, F):
+    UNMASKED.clear()
     hm = F.fn(HANDLE_MESSAGE)
     # ---- (a)
     def one(suffix):
@@ -137,6 +158,10 @@ def check(R, F):
         else:
             ok = ok and masks == {mask}
         seen[name] = (octet, mask)
+        for (ix, mk, other) in UNMASKED.pop(fn.gpath, []):
+            good, why = or_operand_confined(fn, ix, mk, other, mask)
+            R.require(good, 'header-bits', W + name + '|or-operand-confined', fn.where(), 'the value OR-ed into octet %s stays inside the field (%s)' % (ix, why),
+                      '%s ORs a value into header octet %s that is not confined to the field mask 0x%02x (%s): other header bits (RA, Z) can be set' % (name, ix, mask, why))
         R.require(ok, 'header-bits', W + name, fn.where(), 'octet %d mask 0x%02x' % (octet, mask), '%s touches %s, RFC 1035 says octet %d mask 0x%02x' % (name, {k: v for k, v in m.items()}, octet, mask))
     for octet in (2, 3):
         ms = [m for n, (o, m) in seen.items() if o == octet and n != 'set_extended_rcode']
